@@ -32,6 +32,13 @@ impl<S, K: Clone + Eq + Hash> QueueInner<S, K> {
     pub fn remove(&mut self, k: &K) {
         self.streams.remove(k);
     }
+
+    /// Drops every stream. A stream that was polled holds (through the waker registered with its
+    /// transport) a reference back to this queue, so the queue must let go of the streams explicitly.
+    pub fn clear(&mut self) {
+        self.streams.clear();
+        self.ready_queue.clear();
+    }
 }
 
 pub struct FairQueue<S, K: Clone> {
